@@ -1,7 +1,7 @@
 //! `vt` - C20 monitor. One run per process (the tracing subscriber is global):
 //! in shard mode it re-executes itself once per case and merges the results.
 
-use std::{cell::RefCell, collections::VecDeque, future::Future as _, io::Write as _, pin::Pin, process::Command, rc::Rc, task::Poll};
+use std::{cell::RefCell, collections::VecDeque, io::Write as _, pin::Pin, process::Command, rc::Rc, task::Poll};
 
 use cucumber::{Cucumber, Parser, Writer, cli, runner, writer};
 use futures::{StreamExt as _, stream};
@@ -80,6 +80,9 @@ fn single(seed: u64, idx: u64) -> Tally {
     t.count("qpoints", out.qpoints.len() as u64);
     t.interleavings.insert(out.sched_hash);
     oracles_trace::c20(&an, &mut t, idx);
+    // the same real run also feeds the runner oracles: this is the only workload
+    // in which the runner is compiled with its `tracing` code paths
+    vh::oracles_run::check_all(&an, &mut t, idx);
     t.sample("vt", 1, || json!({"case_index": idx, "case": case.describe(), "stream": vh::evrec::render(&out.evs)}));
     t
 }
